@@ -258,7 +258,29 @@ def build_bn(cols, edges, rng=None):
     return m
 
 
+class RealCodeError(Exception):
+    pass
+
+
+def _fit(m, df, n_jobs, **kw):
+    """model.fit; an exception coming back from a joblib worker process (n_jobs=2) has no pgmpy frame in its traceback, so it is
+    re-raised from a pgmpy-free frame with the remote traceback text attached and turned into a violation by check_fit."""
+    if n_jobs == 1:
+        return m.fit(df, n_jobs=1, **kw)
+    try:
+        return m.fit(df, n_jobs=n_jobs, **kw)
+    except Exception as e:  # noqa
+        raise RealCodeError(f"{type(e).__name__}: {e}") from e
+
+
 def check_fit(case):
+    try:
+        return _check_fit(case)
+    except RealCodeError as e:
+        return {"key": "fit:n_jobs-2:raised", "what": f"model.fit(n_jobs=2) raised {e}"}
+
+
+def _check_fit(case):
     _quiet()
     import networkx as nx
     from pgmpy.estimators import BayesianEstimator, MaximumLikelihoodEstimator
@@ -292,7 +314,7 @@ def check_fit(case):
             d = compare_cpd(est.estimate_cpd(v, **wkw), v, par[v], states, want_mle[v])
             if d:
                 F.add("MLE.estimate_cpd:value", f"edges {edges} node {v!r}: {d}")
-        got = m.fit(df, n_jobs=n_jobs, **sn_kw, **wkw)
+        got = _fit(m, df, n_jobs, **sn_kw, **wkw)
         fitted = got if got is not None else m
         if len(fitted.get_cpds()) != len(cols):
             F.add("fit:cpd-count", f"edges {edges}: {len(fitted.get_cpds())} CPDs for {len(cols)} nodes")
@@ -328,7 +350,7 @@ def check_fit(case):
             d = compare_cpd(cpd, v, par[v], states, want_b[v])
             if d:
                 F.add(f"BayesianEstimator.estimate_cpd:{kind}", f"edges {edges} node {v!r} {kw1}: {d}")
-        m2.fit(df, estimator=BayesianEstimator, n_jobs=n_jobs, **sn_kw, **kw, **wkw)
+        _fit(m2, df, n_jobs, estimator=BayesianEstimator, **sn_kw, **kw, **wkw)
         dropped = [v for v in isolated if m2.get_cpds(v) is None]
         if dropped:
             F.add("fit:Bayesian:isolated-nodes", f"edges {edges} on nodes {cols}: fit(estimator=BayesianEstimator) leaves {dropped} without CPD")
@@ -348,9 +370,9 @@ def check_fit(case):
             m3 = build_bn(cols, [e for e in reversed(edges)], None)
             m3.fit(other, **sn_kw, **wkw)
             for v in cols:
-                a, b = cpd_lookup(m3.get_cpds(v), v, par[v], states), cpd_lookup(fitted.get_cpds(v), v, par[v], states)
-                if any(abs(x - y) > 1e-12 for c in a for x, y in zip(a[c], b[c])):
-                    F.add("fit:row-column-edge-order", f"edges {edges} node {v!r}: CPD changes when rows are shuffled, columns reversed and the edge list reversed")
+                d1, d2 = (compare_cpd(x.get_cpds(v), v, par[v], states, want_mle[v]) for x in (m3, fitted))
+                if d1 and not d2:
+                    F.add("fit:row-column-edge-order", f"edges {edges} node {v!r}: CPD changes when rows are shuffled, columns reversed and the edge list reversed: {d1}")
     return F.result()
 
 
